@@ -144,3 +144,37 @@ func pendingFills(label string) int {
 	}
 	return n
 }
+
+// hsReporters: labelled goroutines that run one of the two helper goroutines of startupCoordinator.setupConn
+// (the frame reader and the OPTIONS/STARTUP/auth writer).
+func hsReporters(label string) int {
+	var b bytes.Buffer
+	pprof.Lookup("goroutine").WriteTo(&b, 1)
+	want := `"sc":"` + label + `"`
+	n := 0
+	for _, blk := range strings.Split(b.String(), "\n\n") {
+		lines := strings.Split(strings.TrimSpace(blk), "\n")
+		if len(lines) < 2 {
+			continue
+		}
+		cnt := 0
+		for _, c := range lines[0] {
+			if c < '0' || c > '9' {
+				break
+			}
+			cnt = cnt*10 + int(c-'0')
+		}
+		labelled, helper := false, false
+		for _, l := range lines[1:] {
+			if strings.HasPrefix(l, "# labels:") {
+				labelled = strings.Contains(l, want)
+			} else if strings.Contains(l, ".(*startupCoordinator).setupConn.func") {
+				helper = true
+			}
+		}
+		if labelled && helper {
+			n += cnt
+		}
+	}
+	return n
+}
